@@ -98,14 +98,33 @@ def build(repo, findings):
 ''' % (rule, rule, label, kf, rule, pred, rule))
         u.notes.append('rule %s: backslash alternatives read: %s' % (rule, ' / '.join(a for _, _, a in alts)))
     u.raw('\n'.join(out_lines) + '\n', origin='generated from brush-parser/src/pattern.rs rules escape_sequence, single_char_bracket_member')
+    # ---- the action of rule char_range (R6 block slice): both ends keep the regex text their member rule produced
+    u.raw('''// `format!("{a}-{b}")` with a, b Strings or chars: the texts with a hyphen between them (R8)
+pub trait VxText { spec fn vx_text(&self) -> Seq<char>; }
+impl VxText for String { open spec fn vx_text(&self) -> Seq<char> { self@ } }
+impl VxText for char { open spec fn vx_text(&self) -> Seq<char> { seq![*self] } }
+#[verifier::external_body]
+pub fn fmt_range<A: VxText, B: VxText>(a: &A, b: &B) -> (r: String) ensures r@ == a.vx_text() + seq!['-'] + b.vx_text() { unimplemented!() }
+''')
+    cr = pp.block_slice(r'^\s*from:single_char_bracket_member\(\) "-" to:single_char_bracket_member\(\) \{$', 'fn char_range_action(from: (String, char), to: (String, char)) -> Option<String>', 'char_range_action')
+    cr.r1()
+    cr.resub(r'std::format!\("\{(\w+)\}-\{(\w+)\}"\)', r'fmt_range(&\1, &\2)', 'R8', 'format!("{a}-{b}") -> stub (the two texts with a hyphen between them)', count=None)
+    from vx.extract import C as _C
+    cr.sig('char_range_action', ret='r', ensures=[
+        _C('C08 a-range-keeps-the-regex-text-of-both-its-ends-escapes-included', 'from.1 <= to.1 ==> (r is Some && r->Some_0@ == from.0@ + seq![\'-\'] + to.0@)'),
+        _C('C08 a-range-whose-ends-are-out-of-order-is-no-range', 'from.1 > to.1 ==> r is None'),
+    ])
+    u.add(cr)
     u.raw(FOOTER)
+    u.assume('external_body', 'fmt_range stands for format!("{a}-{b}")')
     u.assume('dependency', 'peg: ordered choice, `[c if G]` matches one character satisfying G, `$()` yields the matched text; regex-syntax / fancy_regex: which characters are special outside and inside a class, and that a backslash makes exactly ASCII punctuation (other than < >) literal')
     u.assume('generated', 'the *_out definitions are produced by units/u50_escape_rules.py from the rule text (alternative or guard forms outside the recognised set stop the run undecided)')
     u.assume('stub', 'the other alternatives of pattern_piece / bracket_member (what sees a character first) and the rest of the grammar are NOT verified here')
-    u.expected_min_fns = 0
+    u.expected_min_fns = 1
     u.counterexample = replay_scripts(repo, [
         ('t() { case "$1" in $2) echo m;; *) echo n;; esac; }; t d "[\\d]"; t 5 "[\\d]"; t _ "[\\w]"; t n "[\\n]"; t A "[\\x41]"', 'm\nn\nn\nm\nn\n'),
         ('t() { case "$1" in $2) echo m;; *) echo n;; esac; }; t d "\\d"; t 7 "\\d"; t "a b" "a\\sb"; t "<x" "\\<*"', 'm\nn\nn\nm\n'),
         ('t() { case "$1" in $2) echo m;; *) echo n;; esac; }; t "*" "\\*"; t "]" "[\\]]"; t "-" "[a\\-z]"; t b "[a\\-z]"', 'm\nm\nm\nn\n'),
+        ('t() { case "$1" in $2) echo m;; *) echo n;; esac; }; t "]" "[Z-\\]]"; t "[" "[Z-\\]]"; t "Z]" "[Z-\\]]"; t "\\\\" "[Z-\\\\\\\\]"', 'm\nm\nn\nm\n'),
     ])
     return u
